@@ -8,6 +8,7 @@ import (
 	"math"
 	"sort"
 	"strings"
+	"time"
 
 	"golang.org/x/tools/go/ssa"
 )
@@ -62,6 +63,7 @@ func (f *Finding) Key() string { return f.Kind + "|" + f.Label + "|" + f.Site }
 type Options struct {
 	Params        map[string]int
 	MaxPaths      int
+	InstanceMs    int // wall-clock budget of one instance (0 = none)
 	MaxSteps      int // per path
 	LoopBudget    int // symbolic decisions per block per activation
 	MaxRecursion  int // same-function recursion depth treated as finding "depth"
@@ -122,48 +124,50 @@ type Exec struct {
 	opt  Options
 
 	// per path
-	pc        []*Term
-	trail     []decision
-	depth     int
-	globals   map[*ssa.Global]*Loc
-	initState map[*ssa.Package]int
-	steps     int
-	inputs    []*Term
-	tagCount  map[string]int
-	stack     []*frame
-	recDepth  map[*ssa.Function]int
-	onceDone  map[*Loc]bool
-	clock     *Term
-	ghost     []string
-	extState  map[string]Value
-	pathSites map[string]bool
-	inputMeta map[string]InputMeta
-	pcKey     uint64
-	panicking *goPanic
-	spec      int
-	guard     *Term
-	journal   map[*Loc]Value
-	minfo     map[*ssa.BasicBlock]*mergeInfo
-	NoMerge   bool
-	qcache    map[[2]uint64]Result
-	initTarget *ssa.Function
+	pc           []*Term
+	trail        []decision
+	depth        int
+	globals      map[*ssa.Global]*Loc
+	initState    map[*ssa.Package]int
+	steps        int
+	inputs       []*Term
+	tagCount     map[string]int
+	stack        []*frame
+	recDepth     map[*ssa.Function]int
+	onceDone     map[*Loc]bool
+	clock        *Term
+	ghost        []string
+	extState     map[string]Value
+	pathSites    map[string]bool
+	inputMeta    map[string]InputMeta
+	pcKey        uint64
+	panicking    *goPanic
+	spec         int
+	guard        *Term
+	journal      map[*Loc]Value
+	minfo        map[*ssa.BasicBlock]*mergeInfo
+	NoMerge      bool
+	Deadline     time.Time // wall-clock budget of the instance (zero = none)
+	firstFinding time.Time
+	qcache       map[[2]uint64]Result
+	initTarget   *ssa.Function
 
 	// per instance
-	Findings []*Finding
-	seen     map[string]bool
-	Stats    Stats
-	finfo    map[*ssa.Function]*funcInfo
+	Findings    []*Finding
+	seen        map[string]bool
+	Stats       Stats
+	finfo       map[*ssa.Function]*funcInfo
 	findingMeta map[*Finding]map[string]InputMeta
-	byteTab  [256]*Term
-	Trace    bool
-	Progress func(*Exec)
+	byteTab     [256]*Term
+	Trace       bool
+	Progress    func(*Exec)
 	// Witness is a model of the first completed path (inputs on which every assertion held symbolically);
 	// the driver replays it natively to cross-check the executor against the compiled code
 	Witness     map[string]uint64
 	WitnessMeta map[string]InputMeta
-	LastEnd  string
-	intr     map[string]intrinsic
-	vrtPath  string
+	LastEnd     string
+	intr        map[string]intrinsic
+	vrtPath     string
 }
 
 func NewExec(prog *ssa.Program, opt Options, solverKind string, timeoutMs int) (*Exec, error) {
@@ -208,6 +212,20 @@ func (ex *Exec) Run(fn *ssa.Function) {
 	for {
 		if ex.Stats.Paths >= ex.opt.MaxPaths {
 			ex.Stats.Unwinds["max-paths"]++
+			return
+		}
+		if len(ex.Findings) > 0 {
+			// an instance that already has a counterexample need not be exhausted: give it 20 more seconds
+			if ex.firstFinding.IsZero() {
+				ex.firstFinding = time.Now()
+			} else if time.Since(ex.firstFinding) > 20*time.Second {
+				ex.Stats.Unwinds["stopped-after-finding"]++
+				return
+			}
+		}
+		if !ex.Deadline.IsZero() && time.Now().After(ex.Deadline) {
+			// wall-clock budget of the instance: exploration is incomplete, reported as a truncation
+			ex.Stats.Unwinds["instance-budget"]++
 			return
 		}
 		ex.runPath(fn)
@@ -2316,7 +2334,6 @@ func SortedKeys(m map[string]int) []string {
 	return k
 }
 
-
 // ---- diamond merging: if/else (or if/then) arms made of simple instructions become ite terms ----
 
 type specAbort struct{}
@@ -2535,7 +2552,6 @@ func (ex *Exec) tryMerge(fr *frame, b *ssa.BasicBlock, c *Term) (*ssa.BasicBlock
 	return mi.join, true
 }
 
-
 // decodeRuneSym decodes one UTF-8 sequence whose lead byte is >= 0x80 and possibly symbolic, forking over
 // the encoding classes of the Unicode standard (table 3-7); returns the rune term and the width.
 func (ex *Exec) decodeRuneSym(b []*Term) (*Term, int) {
@@ -2582,7 +2598,6 @@ func (ex *Exec) decodeRuneSym(b []*Term) (*Term, int) {
 	}
 	return bad()
 }
-
 
 // encodeRuneSym is string(rune) for a symbolic rune: forks over the UTF-8 length classes.
 func (ex *Exec) encodeRuneSym(t *Term) Value {
